@@ -20,7 +20,11 @@ WITNESSES = [
     ["generator", "PCG64", 1, 1],
     ["int", 7],
     ["userobj", "Plain", [["a", ["ndarray", "<i4", [2], "C", 3, False]]]],
-    ["dict", [[["int", 1], ["bytes", "78"]], [["str", "1"], ["bytes", "79"]]]],      # finding C12-F1: the first member is written but no node refers to it
+    # C12-F1 (repaired with D08): two keys with one JSON spelling left the first value's member unreferenced; now dumps raises
+    # ValueError at the second key and no archive exists (also with an array member, and below a list after a written member)
+    ["dict", [[["int", 1], ["bytes", "78"]], [["str", "1"], ["bytes", "79"]]]],
+    ["dict", [[["str", "1"], ["ndarray", "<f8", [2], "C", 1, False]], [["int", 1], ["sparse", "csr", [3, 4], 1]]]],
+    ["list", [["bytes", "6162"], ["defaultdict", "list", [[["float", "0x1.8p+0"], ["bytearray", "0102"]], [["str", "1.5"], ["bytes", "79"]]]]]],
     # arrays with the same bytes and dtype but different shape / layout / scalar-ness are different members
     ["list", [["ndarray", "<f8", [2, 3], "C", 5, False], ["ndarray", "<f8", [6], "C", 5, False], ["ndarray", "<f8", [6, 1], "C", 5, False],
               ["ndarray", "<f8", [3, 2], "F", 5, False], ["ndarray", "<i8", [1], "C", 7, False], ["npscalar", "<i8", 7]]],
@@ -40,14 +44,15 @@ def defect_class(d):
 
 
 def cause_of(spec, d):
-    """the only known cause of an unreferenced member: two dict keys with the same JSON spelling (D08)"""
+    """the only cause ever seen of an unreferenced member: two kept dict keys with the same JSON spelling (D08 / C12-F1, repaired:
+    such a dict is refused now, so this cause can only come back with the refusal gone)"""
     from props.c04 import DICT_TAGS, json_key_text, subspecs
     if "is not referred to" not in d:
         return None
     for s in subspecs(spec):
         if s[0] in DICT_TAGS:
             items = s[1] if s[0] not in ("defaultdict", "mydefaultdict") else s[2]
-            texts = [json_key_text(k) for k, v in items if v[0] != "property"]
+            texts = [x for x in (json_key_text(k) for k, v in items if v[0] != "property") if x is not None]
             if len(set(texts)) != len(texts):
                 return "dict-colliding-keys"
     return "unknown"
